@@ -96,21 +96,30 @@ func TestVerif_C17_setbody(t *testing.T) {
 			s.Crash("setbody "+a.desc, a.desc, txt, "")
 			continue
 		}
+		// the slot is read off BEHAVIOUR (exported fields and the body middleware), not off the
+		// unexported fields: a marshalled value comes out of parseRequestBody as bytes under the
+		// JSON content type; a stream is a GetBody that hands out the same, drained reader again
 		slot := "unchanged"
+		failed, body, bct := c17RunBodyMiddleware(c0, rq)
 		switch {
-		case rq.marshalBody != nil:
+		case failed:
+			slot = "err"
+		case body != nil && bct == "application/json; charset=utf-8":
 			slot = "marshal"
-		case rq.unReplayableBody != nil:
-			slot = "stream"
-		case rq.Body != nil:
-			slot = "raw " + verifh.Hex(string(rq.Body))
+		case body != nil:
+			slot = "raw " + verifh.Hex(string(body))
 		case rq.GetBody != nil:
-			rc, _ := rq.GetBody()
-			b, _ := io.ReadAll(rc)
-			if string(b) == c17ProviderMark {
+			rc1, _ := rq.GetBody()
+			b1, _ := io.ReadAll(rc1)
+			rc2, _ := rq.GetBody()
+			b2, _ := io.ReadAll(rc2)
+			switch {
+			case len(b1) > 0 && len(b2) == 0:
+				slot = "stream"
+			case string(b1) == c17ProviderMark:
 				slot = "provider"
-			} else {
-				slot = "raw " + verifh.Hex(string(b))
+			default:
+				slot = "raw " + verifh.Hex(string(b1))
 			}
 		}
 		arg := "_"
